@@ -48,33 +48,43 @@ WellTargeted(its) ==
 (***************************** declarative part ****************************)
 
 LongLen(it)  == IF it.k = "if" THEN 8 ELSE 5
-SizeAt(it, p, long) ==
-    CASE it.k \in {"pad", "grow"} -> it.n
-      [] IsJump(it)   -> IF long THEN LongLen(it) ELSE 3
-      [] IsSwitch(it) -> 1 + PadLaw(p) + SwitchBody(it)
+(* size of an item at offset p; g = bytes of a grow item (3 as duke writes *)
+(* it, 2 in an input file that holds its constant at an index below 256)   *)
+SizeAtG(it, p, long, g) ==
+    CASE it.k = "pad"  -> it.n
+      [] it.k = "grow" -> g
+      [] IsJump(it)    -> IF long THEN LongLen(it) ELSE 3
+      [] IsSwitch(it)  -> 1 + PadLaw(p) + SwitchBody(it)
+SizeAt(it, p, long) == SizeAtG(it, p, long, 3)
 
 (* offsets of all items, and the code length as element Len+1, when        *)
 (* exactly the jumps in W have the long form                               *)
-RECURSIVE OffsFrom(_, _, _, _)
-OffsFrom(its, W, i, p) ==
+RECURSIVE OffsFrom(_, _, _, _, _)
+OffsFrom(its, W, g, i, p) ==
     IF i > Len(its) THEN <<p>>
-    ELSE <<p>> \o OffsFrom(its, W, i + 1, p + SizeAt(its[i], p, i \in W))
-Offs(its, W) == OffsFrom(its, W, 1, 0)
-
-(* the place a branch offset is relative to: the opcode of the jump, for   *)
-(* the trampoline the opcode of its goto_w                                 *)
-BaseOf(it, p, long) == IF it.k = "if" /\ long THEN p + 3 ELSE p
+    ELSE <<p>> \o OffsFrom(its, W, g, i + 1, p + SizeAtG(its[i], p, i \in W, g))
+OffsG(its, W, g) == OffsFrom(its, W, g, 1, 0)
+Offs(its, W) == OffsG(its, W, 3)
 
 (* every short jump fits 16 bits, and a trampoline is followed by an         *)
 (* instruction (its inverted branch must land on one)                       *)
-ValidW(its, W) ==
-    LET o == Offs(its, W) IN
+ValidWG(its, W, g) ==
+    LET o == OffsG(its, W, g) IN
     /\ \A i \in JumpIdx(its) \ W : InI16(o[its[i].t[1]] - o[i])
     /\ \A i \in W : its[i].k = "if" => i < Len(its)
+ValidW(its, W) == ValidWG(its, W, 3)
 FitW(its, W) == Offs(its, W)[Len(its) + 1] <= U16MAX
 
 (* some choice of long forms gives a correct layout within the limit       *)
 ExistsFit(its) == \E W \in SUBSET JumpIdx(its) : ValidW(its, W) /\ FitW(its, W)
+
+(* The list is the body of a method some class file holds - i.e. a tree    *)
+(* the reader can produce: a file has goto_w / jsr_w but no long           *)
+(* conditional jump, and may hold the constant of a grow item at a one     *)
+(* byte index.                                                             *)
+InputFit(its) ==
+    \E W \in SUBSET {i \in JumpIdx(its) : its[i].k # "if"} :
+        ValidWG(its, W, 2) /\ OffsG(its, W, 2)[Len(its) + 1] <= U16MAX
 
 (* A concrete layout, as observed in a written file, is given by           *)
 (*   off[i]   offset of item i, off[Len+1] = code_length                   *)
